@@ -905,7 +905,20 @@ fn round_msgs(rng: &mut Rng, round: u64) -> Vec<Msg> {
         m.ee_na = T0 + b2;
         m.crl_tu = T0 + c;
         m.crl_nu = T0 + d;
-        out.push(m);
+        out.push(m.clone());
+        // the same layout with the optional key identifier extensions left out:
+        // the time checks must not depend on them
+        for (ee_aki, crl_aki) in [(Aki::Issuer, Aki::Absent), (Aki::Absent, Aki::Issuer), (Aki::Absent, Aki::Absent)] {
+            k += 1;
+            let mut v = next(rng, ENTRIES[k % 4], label);
+            v.ee_nb = m.ee_nb;
+            v.ee_na = m.ee_na;
+            v.crl_tu = m.crl_tu;
+            v.crl_nu = m.crl_nu;
+            v.ee_aki = ee_aki;
+            v.crl_aki = crl_aki;
+            out.push(v);
+        }
     }
     // a window crossing 2049/2050 (UTCTime -> GeneralizedTime in certificate and CRL)
     {
